@@ -302,11 +302,9 @@ LE_WAITER = dict(
 )
 contract(
     'bumble.l2cap:LeCreditBasedChannel.connect',
-    raises={_core.InvalidStateError: None, asyncio.CancelledError: lambda self, ghost: [
-        le_nothing_pending(self, ghost),
-        # the connection request this channel registered in the manager (le_coc_requests[identifier]) is forgotten with it
-        implies(ghost.cut, len(self.manager.le_coc_requests) == 0),
-    ]},
+    # (the request this channel registered in ChannelManager.le_coc_requests[handle] is dropped with the link by
+    # ChannelManager.on_disconnection: c16_teardown.py 'tables-emptied-for-the-handle')
+    raises={_core.InvalidStateError: None, asyncio.CancelledError: lambda self, ghost: [le_nothing_pending(self, ghost)]},
     **LE_WAITER,
 )
 contract(
